@@ -64,9 +64,28 @@ def search(ctx):
                 seen.add(t)
                 stats["distinct"] += 1
         try:
-            alone = observable(P(bad))
+            # a malformed line is one the parser itself reports as skipped (a valid `set default ask` also parses to
+            # the empty observable, but it is a setting, not a malformed line)
+            import logging
+
+            class _Cap(logging.Handler):
+                def __init__(self):
+                    super().__init__()
+                    self.n = 0
+
+                def emit(self, record):
+                    if "skipped" in record.getMessage():
+                        self.n += 1
+
+            cap = _Cap()
+            logging.getLogger().addHandler(cap)
+            try:
+                alone = observable(P(bad))
+            finally:
+                logging.getLogger().removeHandler(cap)
             empty = observable(C.Config())
-            if "\n" not in bad and alone == empty:
+            inert_line = cap.n > 0 or not bad.strip() or bad.strip().startswith("#")
+            if "\n" not in bad and alone == empty and inert_line:
                 stats["bad_line_checks"] += 1
                 x = observable(P(a + ("" if a.endswith("\n") or not a else "\n") + bad + "\n" + b))
                 y = observable(P(a + ("" if a.endswith("\n") or not a else "\n") + b))
